@@ -95,6 +95,12 @@ StopsAtFirstBad ==
     phase \in {"solving", "solved"} =>
         \A i \in 1 .. k - 1 : PlanAt(i).o \in {"ok", "TLI"}
 
+(* bridge to the unbounded proof (spec/unbounded/FaultProofs.tla): the plans of this family satisfy its   *)
+(* assumption, the invariant it proves holds here too, and the real actions refine the abstract ones     *)
+(* (PROPERTY StepRefinesAbs, BeginRefinesAbs of MPSolver.tla).                                            *)
+PlansAreOK   == planned => PlanOK
+LateOrProvenHolds == phase \in {"solving", "solved"} => LateOrProven
+
 HistFault ==
     [ kind |-> "fault", o |-> Common, inst |-> inst, crits |-> crits, limit |-> opts.limit,
       plan |-> plan, nsolves |-> k, status |-> status, proven |-> proven, elapsed |-> elapsed,
